@@ -359,6 +359,8 @@ def _vf_call(f, *a, **k):
         if isinstance(slf, dict):
             return _dict_method(slf, f, a, k)
         return f(*a, **k)
+    if tf is _LRU_TYPE and core.ENG is not None:
+        return _lru_call(f, a, k)
     if tf is type:
         if f in _BUILTIN_TYPES:
             if a and _sym(a[0]):
@@ -368,6 +370,30 @@ def _vf_call(f, *a, **k):
                     return f(*a, **k)
         return f(*a, **k)
     return f(*a, **k)
+
+
+_LRU_TYPE = type(__import__('functools').lru_cache(lambda: None))
+_LRU_EMUL = {}          # id(wrapper) -> [(args, result)]; per path (reset_path_state)
+
+
+def reset_path_state():
+    _LRU_EMUL.clear()
+
+
+def _lru_call(f, a, k):
+    """functools.lru_cache wrapper called from instrumented code: the memo is emulated with a scan
+    using symbolic equality (no hashing), so a cache keyed by a symbolic argument behaves like the
+    real one - including staleness"""
+    if k:
+        raise Unsupported('lru_cache wrapper called with keyword arguments')
+    memo = _LRU_EMUL.setdefault(id(f), [])
+    for args, res in memo:
+        if len(args) == len(a) and all(_eq(x, y) if isinstance(x, (str, SymStr)) and isinstance(y, (str, SymStr))
+                                       else (x == y and type(x) is type(y)) for x, y in zip(args, a)):
+            return res
+    res = _vf_call(f.__wrapped__, *a)
+    memo.append((a, res))
+    return res
 
 
 def _native(f, a, k):
